@@ -26,7 +26,10 @@ def _warm(obj, seed):
         except ValueError:
             pass  # empty relevant class
     if len(obj.pos) and len(obj.neg):
-        obj.eer()
+        try:
+            obj.eer()
+        except ValueError:
+            pass  # the root search gives up on scores in the subnormal range (outside C06's "moderate magnitude"); a warm-up, not a check
         obj.auc()
         _np.random.seed(seed)
         obj.bootstrap_sample(BootstrapConfig(sampling_method="replacement"))
